@@ -20,6 +20,7 @@ Three exhaustive enumerations against the real engine (oracles: models/limits.py
     monotone in Q.
 """
 import itertools
+import resource
 import sys
 import tracemalloc
 
@@ -44,8 +45,10 @@ RULE = ('(a) one case per distinct (call text, source flavour, N): call texts ar
 ASSUMPTIONS = ['"own size" is sys.getsizeof(value, 0), the accounting the options document; memory held by '
                'nested or lazily produced objects is outside the statement',
                'a lazy sequence is "handed to a library function" when it is bound directly to a parameter '
-               'or returned by a lambda argument; sources nested inside other collections are only '
-               'required to terminate (never HORIZON) and to respect the limit in the result',
+               'or returned by a lambda argument; sources nested inside other collections occur only in the '
+               'hand-written templates',
+               'one source is handed over once per case: two hand-overs of the same iterator are each allowed '
+               'N + 1 pulls, so templates with two sequence arguments use two sources',
                'sized Sequence() positions cannot receive a lazy source and are not source positions']
 BOUNDS = {
     'quick': '(a) all definitions x source positions x corpus x 2 source flavours x N in {0,1,2,5}; '
@@ -115,7 +118,7 @@ def slot_kind(p):
         return 'seq'
     if n == 'Sequence':
         return 'sized'
-    if n in ('MappingRule',):
+    if n == 'MappingRule':
         return 'rule'
     if n == 'PythonType':
         pt = t.python_type
@@ -246,12 +249,7 @@ def call_texts():
                     continue
                 for combo in itertools.product(*pools):
                     args = list(combo[:len(params) + nstar])
-                    kw = []
-                    if withkw:
-                        v = combo[-1]
-                        kw = ['kw => ' + v] if '=>' not in v else []
-                        if not kw:
-                            continue
+                    kw = ['kw => ' + combo[-1]] if withkw else []
                     for text in _spellings(fd, args, kw):
                         if text not in seen:
                             seen.add(text)
@@ -300,15 +298,19 @@ EXTRA_TEXTS = [
 ]
 
 
-def limit_cases(tier):
-    gen, _skipped = call_texts()
-    cases = [(text, fn, payload, param) for (text, fn, payload, param) in gen]
-    seen = {c[0] for c in cases}
-    for t in EXTRA_TEXTS:
-        if t not in seen:
-            seen.add(t)
-            cases.append((t, 'extra', 'extra', ''))
-    return cases
+def _safety():
+    """A worker that meets a broken limiter must die of MemoryError, not take the machine with it."""
+    soft, hard = resource.getrlimit(resource.RLIMIT_AS)
+    cap = 6 * 2 ** 30
+    if soft == resource.RLIM_INFINITY or soft > cap:
+        resource.setrlimit(resource.RLIMIT_AS, (cap, hard))
+
+
+def limit_texts():
+    """Generated call texts, then the hand-written templates not already among them."""
+    texts = [c[0] for c in call_texts()[0]]
+    seen = set(texts)
+    return texts + [t for t in EXTRA_TEXTS if t not in seen]
 
 
 _code_defs = {}
@@ -402,9 +404,9 @@ def _strip(obs):
 
 
 def job_limit(tier, k, nchunks):
+    _safety()
     res = Result()
-    cases = limit_cases(tier)[k::nchunks]      # strided: similar cost per job
-    for text, fn, payload, param in cases:
+    for text in limit_texts()[k::nchunks]:     # strided: similar cost per job
         for flavour in ('int', 'pair'):
             for n in NS[tier]:
                 case = {'kind': 'limit', 'text': text, 'flavour': flavour, 'n': n}
@@ -462,6 +464,7 @@ def _short(obs):
 
 
 def job_shapes(tier, n, k, nchunks):
+    _safety()
     res = Result()
     for shape in M.shapes(n, 3)[k::nchunks]:
         for t2l, s2l in OPTION_COMBOS:
@@ -635,6 +638,7 @@ def quota_chains(tier):
 
 
 def job_quota(tier, k, nchunks):
+    _safety()
     res = Result()
     allc = quota_chains(tier)
     for chain in allc[k::nchunks]:
@@ -688,9 +692,10 @@ def jobs(tier, seed):
 
 
 def finish(total, tier):
-    _gen, skipped = call_texts()
+    gen, skipped = call_texts()
     total.extra['definitions_without_corpus_for_some_position'] = skipped
-    total.extra['limit_call_texts'] = len(limit_cases(tier))
+    total.extra['limit_call_texts'] = len(limit_texts())
+    total.extra['source_positions_covered'] = len({(fn, payload, param) for _t, fn, payload, param in gen})
 
 
 def replay(case):
